@@ -141,6 +141,9 @@ def trace_program(seed: int, idx: int):
     scoped = r.random() < 0.4
     if scoped:
         gb.push_module("layer1")
+    if r.random() < 0.5:
+        # the first node of the main graph is an Add: a subgraph that also starts with an Add restarts the same generated numbering
+        tr.pool.append(tr.apply("Add", [x, y]))
     for _ in range(r.randint(3, 8)):
         tr.step()
     if scoped:
@@ -155,11 +158,13 @@ def trace_program(seed: int, idx: int):
         lit_t, lit_e = r.choice(LITS_F), r.choice(LITS_F)
         tshape = tr.sv(last).shape
 
+        deep = r.random() < 0.6  # two-node bodies: the intermediate value gets a generated name inside the subgraph
+
         def then_fn(op_):
-            return op_.Add(cap, lit_t)
+            return op_.Add(op_.Add(cap, lit_t), cap) if deep else op_.Add(cap, lit_t)
 
         def else_fn(op_):
-            return op_.Mul(cap, lit_e)
+            return op_.Mul(op_.Add(cap, cap), lit_e) if deep else op_.Mul(cap, lit_e)
         tb = gb.subgraph(then_fn, inputs=[], outputs=[make_value("then_out", FLOAT[tshape] if tshape else FLOAT)], name="then_b")
         eb = gb.subgraph(else_fn, inputs=[], outputs=[make_value("else_out", FLOAT[tshape] if tshape else FLOAT)], name="else_b")
         s = tr.apply("ReduceSum", [last], {"keepdims": 0})
@@ -170,6 +175,9 @@ def trace_program(seed: int, idx: int):
         ctx = O.Ctx(18)
         a_t = O.OPS["Add"]([tr.sv(cap), _lit_to_sv(lit_t, DT.FLOAT)], {}, ctx)[0]
         a_e = O.OPS["Mul"]([tr.sv(cap), _lit_to_sv(lit_e, DT.FLOAT)], {}, ctx)[0]
+        if deep:
+            a_t = O.OPS["Add"]([a_t, tr.sv(cap)], {}, ctx)[0]
+            a_e = O.OPS["Mul"]([O.OPS["Add"]([tr.sv(cap), tr.sv(cap)], {}, ctx)[0], _lit_to_sv(lit_e, DT.FLOAT)], {}, ctx)[0]
         cv = tr.sv(c).arr.reshape(())[()]
         env[id(res)] = SV(ew(lambda p, q: e_ite(cv, p, q, "f"), a_t.arr, a_e.arr), DT.FLOAT)
         tr.pool.append(res)
